@@ -39,5 +39,6 @@ Definition dispatch (n : Z) (s : sexp) : sexp :=
   | 31 => renderable_entry s
   | 32 => json_print_entry s
   | 33 => json_parse_entry s
+  | 34 => json_wf_entry s
   | _ => L [A (-1)]
   end.
